@@ -794,10 +794,18 @@ class Evolution(pg.DNAGenerator):
           Tuple[pg.DNA, typing.Union[None, float, Tuple[float]]]]
       ) -> None:
     """Recover states by replaying the proposal history."""
-    # Recover the state of the population.
-    init_population = []
+    history = list(history)
+    init_population = [
+        (dna, reward) for dna, reward in history
+        if reward is not None and is_initial_population(dna)]
 
-    for dna, reward in history:
+    # Recover the state of the population by replaying the feedbacks in the
+    # order they were received, which may differ from the order of proposals.
+    def feedback_order(item):
+      sequence_number = get_feedback_sequence_number(item[0])
+      return (sequence_number is None, sequence_number or 0)
+
+    for dna, reward in sorted(history, key=feedback_order):
       self._num_proposals += 1
       dna.use_spec(self.dna_spec)
       if reward is not None:
@@ -816,18 +824,20 @@ class Evolution(pg.DNAGenerator):
                 global_state=self._global_state,
                 step=self._num_feedbacks)
           self._num_feedbacks += 1
-        if is_initial_population(dna):
-          init_population.append((dna, reward))
 
-      # Recover `self.num_generations`.
+      # Recover `self.num_generations`. The initial population is counted as a
+      # generation once it is complete.
       generation_id = get_generation_id(dna)
-      if generation_id > self.num_generations:
+      if (not is_initial_population(dna)
+          and generation_id > self.num_generations):
         self._global_state.num_generations = generation_id
 
     # Recover the state of the population initializer.
     if (self._init_population_size is not None
         and len(init_population) >= self._init_population_size):
       self._population_initialized = True
+      if self.num_generations == 0:
+        self._global_state.num_generations = 1
     self._init_population_generator.recover(init_population)
 
 
